@@ -205,15 +205,34 @@ def _diagonal(ctx, cfg):
             ctx.holds("SigmaZ/abs=%s == diag of (1/n) sum Z_i[row=%d]" % (absolute, k), abs(float(res[k]) - float(want)) <= 1e-15 * n, "%r vs %s" % (float(res[k]), want))
         offd = all(not OZ[a, b].t for a in range(D) for b in range(D) if a != b)
         ctx.holds("SigmaZ/operator-is-diagonal", offd)
+    # history: the same observable object may have been applied to chains of other lengths (and other states) before
+    others = {}
+    for m in sorted({n + 2, n + 1, max(1, n - 1), 1} - {n}):
+        so = DC.make_state("positive", m, 1)
+        others[m] = (so, so.generate_hilbert_space(m))
     for c in range(1, n + 1):
         for periodic in (False, True):
             O = dense_zz(n, (c % n + 1) if canary == "spec-zz-wrong-distance" and n > 2 else c, periodic)
-            res = NeighbourInteraction(periodic_bcs=periodic, c=c).apply(state, space)
-            ctx.holds("ZZ/shape[c=%d periodic=%s]" % (c, periodic), tuple(res.shape) == (D,))
-            for k in range(D):
-                want = Fr(O[k, k].const_value())
-                ctx.holds("ZZ == diag of (1/n) sum Z_i Z_(i+c)[c=%d periodic=%s row=%d]" % (c, periodic, k),
-                          abs(float(res[k]) - float(want)) <= 1e-15 * n, "%r vs %s" % (float(res[k]), want))
+            for hist, ms in (("", ()), ("history: object used on shorter chains before/", [m for m in others if m < n]),
+                             ("history: object used on longer chains before/", [m for m in others if m > n][::-1])):
+                if hist and not [m for m in ms if c <= m]:
+                    continue
+                ob = NeighbourInteraction(periodic_bcs=periodic, c=c)
+                for m in ms:
+                    if c <= m:
+                        ob.apply(*others[m])
+                res = ob.apply(state, space)
+                ctx.holds(hist + "ZZ/shape[c=%d periodic=%s]" % (c, periodic), tuple(res.shape) == (D,))
+                for k in range(D):
+                    want = Fr(O[k, k].const_value())
+                    ctx.holds(hist + "ZZ == diag of (1/n) sum Z_i Z_(i+c)[c=%d periodic=%s row=%d]" % (c, periodic, k),
+                              abs(float(res[k]) - float(want)) <= 1e-15 * n, "%r vs %s" % (float(res[k]), want))
+    zob = SigmaZ()
+    for m, (so, sp) in others.items():
+        zob.apply(so, sp)
+    res = zob.apply(state, space)
+    for k in range(D):
+        ctx.holds("history: object used on chains of other lengths before/SigmaZ[row=%d]" % k, abs(float(res[k]) - float(Fr(OZ[k, k].const_value()))) <= 1e-15 * n)
     ctx.holds("apply/samples-unchanged", torch.equal(space, keep))
     # lemma for diagonal operators: sum_s p(s) O[s,s] == tr(rho O) because p == diag rho (C01 / C02)
     p = [alg.uf("p[%d]" % k, "pos") for k in range(D)]
@@ -258,7 +277,11 @@ def _e2e(ctx, cfg):
         rho = [[psi[i] * alg.conj(psi[j]) for j in range(D)] for i in range(D)]
     O = dense_single(n, letter)
     space = state.generate_hilbert_space(n)
-    res = _obs(letter).apply(state, space)
+    # history: the observable object was applied to another state with another number of sites first
+    ob = _obs(letter)
+    other = DC.make_state(kind, n + 1, 1, 1)
+    ob.apply(other, other.generate_hilbert_space(n + 1))
+    res = ob.apply(state, space)
     ctx.holds("end-to-end/shape", tuple(res.shape) == (D,))
     tot_l, tot_r = ZERO, ZERO
     for k in range(D):
